@@ -41,6 +41,11 @@ impl<'a> Question<'a> {
         &&& qclass_of_code(be16(data[q + 2], data[q + 3]) & 0x7FFF) == Ok::<QCLASS, crate::SimpleDnsError>(v.qclass)
         &&& v.unicast_response == (be16(data[q + 2], data[q + 3]) & 0x8000 == 0x8000)
     }
+    open spec fn wf_cdec(data: Seq<u8>, p: int, v: &Self, p2: int) -> bool { Self::wf_dec(data, p, v, p2) }
+    open spec fn wf_canon(&self) -> bool { true }
+    open spec fn wf_nocomp() -> bool { false }
+    #[verifier::external_body]
+    proof fn lemma_rt(&self, pre: Seq<u8>) {}
 """)
     c.wrap(rel, Q_WF)
 
@@ -93,6 +98,11 @@ impl<'a> ResourceRecord<'a> {
              else { class_of_code(be16(data[q + 2], data[q + 3]) & 0x7FFF) == Ok::<CLASS, crate::SimpleDnsError>(v.class)
                     && v.cache_flush == (be16(data[q + 2], data[q + 3]) & 0x8000 == 0x8000) })
     }
+    open spec fn wf_cdec(data: Seq<u8>, p: int, v: &Self, p2: int) -> bool { Self::wf_dec(data, p, v, p2) }
+    open spec fn wf_canon(&self) -> bool { true }
+    open spec fn wf_nocomp() -> bool { false }
+    #[verifier::external_body]
+    proof fn lemma_rt(&self, pre: Seq<u8>) {}
 """)
     c.contract(rel, RR_WF, 'parse', "", pre_body="""
         proof { assert(!0x8000u16 == 0x7FFFu16) by(bit_vector); }
